@@ -42,6 +42,7 @@ TYPES += [
     ("leeds", 4, "leeds_photon", "PHOTON", ["H"], ["H"], ""),
     ("leeds", 4, "leeds_photon_shield", "PHOTON", ["CO"], ["CO"], "CO"),
     ("leeds", 4, "leeds_photon_shield", "PHOTON", ["H2"], ["H2"], "H2"),
+    ("leeds", 4, "leeds_photon_shield", "PHOTON", ["N2"], ["N2"], "N2"),
     ("leeds", 5, "zero", "XRAY", ["H"], ["H"], ""),
     ("leeds", 11, "leeds_crphot", "CRPHOT", ["GH"], ["GH"], ""),
     ("leeds", 12, "leeds_photon", "PHOTON", ["GH"], ["GH"], ""),
@@ -202,6 +203,11 @@ def run_pack(arg):
             if fmt in ("leeds", "uclchem"):
                 # shielded laws reference IDX_COI / IDX_H2I: keep both species in every pack
                 kw["required_species"] = ["CO", "H2"]
+            if fmt == "leeds":
+                # with the tables selected the helpers return real factors, so the column densities the emitted rate
+                # hands them (N(H2) = 0.5*1.59e21*Av, N(CO) = N(N2) = 1e-5 N(H2)) are part of what is compared
+                kw["required_species"] = ["CO", "H2", "N2"]
+                kw["shielding"] = {"H2": "L96Table", "CO": "V09Table", "N2": "L13Table"}
             with quiet():
                 net = Network(filelist=str(f), fileformats=fmt, **kw)
             if len(net.reaction_list) != len(lines):
@@ -248,6 +254,8 @@ def run_pack(arg):
             helpers.append("GetShieldingFactor(IDX_COI, 0.5*1.59e21*Av, 1e-5 * (0.5*1.59e21*Av), Tgas, %d)" % (1 if fmt == "uclchem" else 0))
             if fmt == "uclchem":
                 helpers.append("GetGrainScattering(Av, GetCharactWavelength(0.5*1.59e21*Av, 1e-5 * (0.5*1.59e21*Av)))")
+        if "IDX_N2I" in macros.text and fmt == "leeds":
+            helpers.append("GetShieldingFactor(IDX_N2I, 0.5*1.59e21*Av, 1e-5 * (0.5*1.59e21*Av), Tgas, 0)")
         if "IDX_H2I" in macros.text and fmt == "leeds":
             helpers.append("GetShieldingFactor(IDX_H2I, 0.5*1.59e21*Av, 0.5*1.59e21*Av, Tgas, 0)")
         fields = [f for f, _ in RR.data_fields(files)]
@@ -272,6 +280,8 @@ def run_pack(arg):
                     h["shield"] = hv[0]
                     if fmt == "uclchem":
                         h["scatter"] = hv[1]
+                elif t[6] == "N2":
+                    h["shield"] = hv[1]
                 elif t[6] == "H2":
                     h["shield"] = hv[-1]
                 exp = reference(law, a, b, c, g, h)
@@ -494,7 +504,7 @@ def run(ctx):
         "UCLCHEM's CO photodissociation helpers (dust scattering, tau(lambda)/tau(V), lambda-bar) are compared with a second transcription of photoreac.f90 on a grid bracketing every branch point; the Savage & Mathis table values themselves are copied, only the control flow around them is independent",
         "the tabulated shielding functions themselves are judged by an interpolation invariant only: at every node of the generated table (positive neighbourhood) the compiled helper returns the table value; values between nodes and beyond the table are not judged",
         "reference laws: KIDA formulae 1-5 (Wakelam+2012), UMIST RATE12 (McElroy+2013), Walsh+2015 (Leeds), UCLCHEM v1.3, transcribed in mc/ref/ratelaws.py; zism = 1.3e-17",
-        "shielding/scattering helper values entering a law are taken from the compiled helpers themselves, so only the law around them is judged",
+        "shielding/scattering helper values entering a law are taken from the compiled helpers themselves, called with the column densities the source database prescribes (N(H2) = 0.5*1.59e21*Av, N(CO) = N(N2) = 1e-5 N(H2)); for Leeds the three tables are selected, so a wrong column in the emitted rate changes the value",
         "comparison: relative 1e-12 or identical inf/nan class; window guards are C06's subject (all windows here are 1..99999 K)",
         "Leeds fixed-width fields cannot carry every alphabet value; those (format,value) pairs are skipped and counted",
     ]
